@@ -490,6 +490,62 @@ pub fn determinism(ctx: &Ctx, rep: &mut Report) {
         steered::<F1024>(ctx, &table, &xs, rep);
         steered::<F512>(ctx, &table, &xs, rep);
     }
+    // (g) key generation of BOTH parameter sets at the same time, next to threads that run the
+    // key generator's core at tiny degrees in a tight loop (process-wide tables or caches that
+    // depend on the degree are replaced constantly): every key must equal its quiet-time value
+    {
+        let stop = Arc::new(std::sync::atomic::AtomicBool::new(false));
+        let mut churn = vec![];
+        for t in 0..20usize {
+            let stop = stop.clone();
+            let vseed = ctx.seed;
+            churn.push(std::thread::spawn(move || {
+                let mut rng = crate::util::rng_for(vseed, &format!("c15-churn-{}", t));
+                let mut made = 0u64;
+                while !stop.load(std::sync::atomic::Ordering::Relaxed) {
+                    let n = [4usize, 8, 4, 8, 16][(made as usize + t) % 5];
+                    let _ = monitored(|| falcon_rust::math::ntru_gen(n, &mut rng));
+                    made += 1;
+                }
+                made
+            }));
+        }
+        let mut workers = vec![];
+        let rounds512 = ctx.sz(10, 40);
+        for t in 0..6usize {
+            // four threads on Falcon-512 (cheap: many executions), two on Falcon-1024
+            let big = t >= 4;
+            let seeds = if big { s1024.clone() } else { s512.clone() };
+            let rounds = if big { 1 } else { rounds512 };
+            workers.push(std::thread::spawn(move || {
+                let mut out = vec![];
+                for round in 0..rounds {
+                    for s in &seeds {
+                        out.push((big, *s, format!("next to concurrent key generation at other degrees (thread {}, round {})", t, round), if big { fingerprint::<F1024>(*s) } else { fingerprint::<F512>(*s) }));
+                    }
+                }
+                out
+            }));
+        }
+        for w in workers {
+            if let Ok(v) = w.join() {
+                let mut tb = table.lock().unwrap();
+                for (big, s, who, r) in v {
+                    rep.evaluations += 1;
+                    if let Ok(fp) = r {
+                        record(&mut tb, if big { "falcon1024" } else { "falcon512" }, s, &who, fp);
+                        rep.count("keys_generated_next_to_other_degrees", 1);
+                    }
+                }
+            }
+        }
+        stop.store(true, std::sync::atomic::Ordering::Relaxed);
+        let mut total = 0;
+        for c in churn {
+            total += c.join().unwrap_or(0);
+        }
+        rep.count("tiny_degree_key_generations_run_concurrently", total);
+    }
     for (c, mut ch, out) in kids {
         let st = ch.wait();
         let text = std::fs::read_to_string(&out).unwrap_or_default();
